@@ -76,3 +76,50 @@ package blockchain
 // and only grow (existing entries are kept).
 //@ pred entrieskept() = forall c *Blockchain, h hotstuff.Hash :: old(has(c.blocks, h)) ==> has(c.blocks, h) && c.blocks[h] == old(c.blocks[h])
 //@ pred storeskept() = (forall c *Blockchain :: old(binv(c)) ==> binv(c)) && (forall c *Blockchain :: old(bmaps(c)) ==> bmaps(c)) && (forall c *Blockchain, h hotstuff.Hash :: old(has(c.blocks, h)) ==> has(c.blocks, h) && c.blocks[h] == old(c.blocks[h]))
+
+// ---- pruning. The height index names non-nil blocks at their own view.
+//@ pred hinv(c *Blockchain) = forall v hotstuff.View :: {has(c.blockAtHeight, v)} has(c.blockAtHeight, v) ==> c.blockAtHeight[v] != nil && c.blockAtHeight[v].view == v
+
+// sanc: the block with hash h lies on b's parent chain inside the store (followed while views
+// decrease) or is b itself. sancp is the same, cut off at views at or below p.
+//@ pure func sanc(c *Blockchain, b *hotstuff.Block, h hotstuff.Hash) bool = b != nil && (b.hash == h || (has(c.blocks, b.parent) && c.blocks[b.parent].view < b.view && sanc(c, c.blocks[b.parent], h))) decreases b == nil ? 0 : b.view
+//@ pure func sancp(c *Blockchain, b *hotstuff.Block, h hotstuff.Hash, p hotstuff.View) bool = b != nil && b.view > p && (b.hash == h || (has(c.blocks, b.parent) && c.blocks[b.parent].view < b.view && sancp(c, c.blocks[b.parent], h, p))) decreases b == nil ? 0 : b.view
+
+// The defining equation of sancp, for use under quantifiers over h.
+//@ lemma sancp_def(c *Blockchain, b *hotstuff.Block, h hotstuff.Hash, p hotstuff.View) property C13
+//@   ensures sancp(c, b, h, p) == (b != nil && b.view > p && (b.hash == h || (has(c.blocks, b.parent) && c.blocks[b.parent].view < b.view && sancp(c, c.blocks[b.parent], h, p))))
+//@   trigger sancp(c, b, h, p)
+
+// A block above the cut that is on the chain is on the cut chain (hashes determine views).
+//@ lemma sanc_cut(c *Blockchain, b *hotstuff.Block, f *hotstuff.Block, p hotstuff.View) property C13
+//@   requires hashdet() && binv(c) && f != nil && f.view > p && sanc(c, b, f.hash)
+//@   ensures sancp(c, b, f.hash, p)
+//@   trigger sanc(c, b, f.hash), sancp(c, b, f.hash, p)
+//@   decreases b == nil ? 0 : b.view
+//@   proof if b != nil && b.hash != f.hash { use sanc_cut(c, c.blocks[b.parent], f, p) }
+
+// (With sanc_cut, "not on the cut chain" for a reported block, whose view is above the old
+// prune height, is "not on the committed block's chain".)
+// PruneToHeight: the reported blocks are the indexed blocks of the pruned views that are not
+// on the committed block's chain; each view is visited once (strictly decreasing views, so no
+// block is reported twice), the pruned views leave the index and are never visited again.
+//@ func (*Blockchain).PruneToHeight property C13,C06
+//@   requires binv(chain) && bmaps(chain) && hinv(chain) && chain.logger != nil
+//@   requires [collision-resistance] hashdet()
+//@   ensures [inv] binv(chain) && bmaps(chain) && hinv(chain)
+//@   ensures [prune-height] chain.pruneHeight == height
+//@   ensures [reported] forall i int :: {forkedBlocks[i]} 0 <= i && i < len(forkedBlocks) ==> forkedBlocks[i] != nil && old(chain.pruneHeight) < forkedBlocks[i].view && forkedBlocks[i].view <= height && old(has(chain.blockAtHeight, now(forkedBlocks[i].view))) && forkedBlocks[i] == old(chain.blockAtHeight[now(forkedBlocks[i].view)])
+//@   ensures [not-on-committed-chain] forall i int :: {forkedBlocks[i]} 0 <= i && i < len(forkedBlocks) ==> !sancp(chain, committed, forkedBlocks[i].hash, old(chain.pruneHeight))
+//@   ensures [at-most-once] forall i int, j int :: {forkedBlocks[i], forkedBlocks[j]} 0 <= i && i < j && j < len(forkedBlocks) ==> forkedBlocks[i].view > forkedBlocks[j].view
+//@   ensures [index-pruned] forall v hotstuff.View :: {has(chain.blockAtHeight, v)} (old(chain.pruneHeight) < v && v <= height) ? !has(chain.blockAtHeight, v) : (has(chain.blockAtHeight, v) == old(has(chain.blockAtHeight, v)) && chain.blockAtHeight[v] == old(chain.blockAtHeight[v]))
+//@   ensures [fresh-result] len(forkedBlocks) > 0 ==> fresh(forkedBlocks)
+//@   modifies chain.blockAtHeight[*], chain.pruneHeight, alloc
+//@   uses sancp_def
+//@   loop 0 invariant [walk] forall h hotstuff.Hash :: {committedBlocks[h]} sancp(chain, committed, h, chain.pruneHeight) == (committedBlocks[h] || sancp(chain, block, h, chain.pruneHeight))
+//@   loop 0 invariant [set] committedBlocks != nil && fresh(committedBlocks)
+//@   loop 1 invariant [h] h <= height && (h >= chain.pruneHeight || h == height)
+//@   loop 1 invariant [reported] forall i int :: {(*forkedBlocks)[i]} 0 <= i && i < len((*forkedBlocks)) ==> (*forkedBlocks)[i] != nil && h < (*forkedBlocks)[i].view && chain.pruneHeight < (*forkedBlocks)[i].view && (*forkedBlocks)[i].view <= height && old(has(chain.blockAtHeight, now((*forkedBlocks)[i].view))) && (*forkedBlocks)[i] == old(chain.blockAtHeight[now((*forkedBlocks)[i].view)]) && !committedBlocks[(*forkedBlocks)[i].hash]
+//@   loop 1 invariant [at-most-once] forall i int, j int :: {(*forkedBlocks)[i], (*forkedBlocks)[j]} 0 <= i && i < j && j < len((*forkedBlocks)) ==> (*forkedBlocks)[i].view > (*forkedBlocks)[j].view
+//@   loop 1 invariant [index] forall v hotstuff.View :: {has(chain.blockAtHeight, v)} (h < v && v <= height) ? !has(chain.blockAtHeight, v) : (has(chain.blockAtHeight, v) == old(has(chain.blockAtHeight, v)) && chain.blockAtHeight[v] == old(chain.blockAtHeight[v]))
+//@   loop 1 invariant [fresh-result] cap(*forkedBlocks) > 0 ==> fresh(*forkedBlocks)
+//@   loop 1 invariant [set] forall x hotstuff.Hash :: {committedBlocks[x]} sancp(chain, committed, x, chain.pruneHeight) == committedBlocks[x]
